@@ -60,7 +60,9 @@ CHECKS.update({
              'request structure (join vs. new request) and TLC validates C11_NoDuplicateWork and C11_WrongRequest.'),
  'C12': comp('LockRef.tla', 'TLC enumerates, from the executable reference model LockRef.tla, a cover of every (reference state, operation) pair reachable within 7 '
              'operations (4 configurations, 2 threads x 2 objects, all argument forms, single/double OSError injection) plus simulated length-7 behaviours; each '
-             'sequence is replayed on the real FileLock and every step (result, is_locked, descriptor count, in-process lock owner, duration) compared by TLC with Apply().',
+             'sequence is replayed on the real FileLock and every step (result, is_locked, descriptor count, in-process lock owner, duration) compared by TLC with Apply(). Overlapping operations of 2-3 threads on shared objects (random programs, a stall sweep that deschedules each thread at its '
+             'k-th line for longer than the others need, unheld release() while another thread waits for the object) end with a FinalState observation and a probe of every '
+             'object: C12_IsLocked, C12_InProcessLock, C12_NoLeak_fd, C12_Residue.',
              'operation sequences generated by TLC from the TLA+ reference model LockRef.tla are replayed into the real FileLock; recorded steps are validated by TLC against the same model'),
 })
 CHECKS['C13'] = comp('CrashTrace.tla', 'A forked victim process is SIGKILLed at every line event inside aiuti/filelock.py (blocking, timed, with, reentrant-nested, '
